@@ -158,6 +158,7 @@ func compilePkgs(g *lookup, pkgs []*token, optimize bool) (ins []instruction, sl
 			Imports:  map[string]string{},
 			Optimize: optimize,
 		}
+		cmp.declareFuncs(tok.Tokens)
 		var res []instruction
 		res, slots, err = cmp.run(tok)
 		if err != nil {
@@ -167,6 +168,26 @@ func compilePkgs(g *lookup, pkgs []*token, optimize bool) (ins []instruction, sl
 	}
 	return ins, slots, nil
 
+}
+
+// declareFuncs enters the functions of a package into the globals before any body is compiled.
+// A package's declarations are hoisted, so a call may stand above the definition it means; without
+// the entry such a call to a function named like a builtin (print, println) compiled to the builtin
+// on the first load and to the package's function on every later load of the same source.
+func (c *compiler) declareFuncs(toks []*token) {
+	export := ""
+	for _, t := range toks {
+		switch {
+		case t.Symbol == "package" && len(t.Tokens) > 0:
+			export = t.Tokens[len(t.Tokens)-1].Text
+		case t.Symbol == "function" && len(t.Tokens) > 0:
+			key := t.Tokens[0].Text
+			if export != "" {
+				key = export + "." + key
+			}
+			c.Globals.Index(key)
+		}
+	}
 }
 
 func compile(g *lookup, tok *token, optimize bool) (ins []instruction, slots int, err error) {
